@@ -1,7 +1,8 @@
 (** C16 -- graphs and grammars stay well formed under any sequence of API calls.
     Only property theorems live here, each closed by [exact] and followed by Print Assumptions.
 
-    Model: Fggs.Model.GraphAPI ([step], [observe], [wf_b], guards [guard_wf], [atomic_ok]).
+    Model: Fggs.Model.GraphAPI ([step], [observe], [wf_b], guard [guard_wf] = [alias_ok]),
+    following /repo/fggs/fggs.py after the repairs 349378f, 80c0f78, 068b525, 6c89611.
     [inv] (Proofs/GraphAPI_wf.v) is well-formedness of the whole family of objects:
     attachment and external nodes are nodes of their graph, every node / edge / label is stored
     under its own id / name (so ids are unique and a name denotes one label), every edge's
@@ -9,31 +10,29 @@
     registered and has the type of its rhs (a live graph all of whose edge labels the grammar
     has registered).
 
-    For the code as it stands the unguarded statements are FALSE (the *_refuted theorems);
-    the positive theorems carry the explicit boolean guards. *)
+    One class remains for which the unguarded statement is false: a grammar keeps a reference
+    to the caller's rhs graph ([C16_inv_refuted]); [guard_wf] excludes exactly the successful
+    ext= / add_edge / new_edge calls on such a graph that change its type or use a label the
+    owning grammar has not registered.  Atomicity and the copy statements hold unguarded. *)
 From Coq Require Import List Arith Bool.
 Import ListNotations.
 Require Import Fggs.Model.GraphAPI.
 Require Import Fggs.Proofs.GraphAPI_wf Fggs.Proofs.GraphAPI_inv Fggs.Proofs.GraphAPI_oracle
         Fggs.Proofs.GraphAPI_atomic Fggs.Proofs.GraphAPI_frame Fggs.Proofs.GraphAPI_eq
-        Fggs.Proofs.GraphAPI_copy Fggs.Proofs.GraphAPI_copyobs Fggs.Proofs.GraphAPI_refuted Fggs.Proofs.GraphAPI_examples.
+        Fggs.Proofs.GraphAPI_copy Fggs.Proofs.GraphAPI_refuted Fggs.Proofs.GraphAPI_examples.
 
 (** * (A) C16_inv *)
 Theorem C16_inv_init : inv init.
 Proof. exact inv_init. Qed.
 Print Assumptions C16_inv_init.
 
-(** one call: well-formedness is preserved by every call -- successful or raising -- that
-    satisfies [guard_wf] (F11: an argument node whose id is present must be the node present;
-    remove_node: the node stored under the id is the argument or is free; F13: no copy of a
-    plain Graph that has edges; aliasing: ext= / add_edge on a graph used as a rule's rhs must
-    keep the type / use a label the grammar knows) *)
+(** one call, successful or raising, with any arguments (nodes re-using ids, clashing labels,
+    wrong types, ...): well-formedness is preserved, unless the call successfully mutates a
+    graph that a grammar uses as a rule's rhs in a way the grammar cannot follow *)
 Theorem C16_inv_step : forall s o, inv s -> guard_wf s o = true -> inv (fst (step s o)).
 Proof. exact step_inv. Qed.
 Print Assumptions C16_inv_step.
 
-(** every state reached from the empty family by guarded calls is well formed, and the
-    observation-level oracle accepts it *)
 Theorem C16_inv_reachable :
   forall ops, all_guarded init ops = true ->
               inv (run init ops) /\ wf_b (observe (run init ops)) = true.
@@ -50,68 +49,35 @@ Theorem C16_wf_oracle_complete : forall s, inv s -> wf_b (observe s) = true.
 Proof. exact inv_wf_b. Qed.
 Print Assumptions C16_wf_oracle_complete.
 
-(** without the guard the statement is false for the code as it stands *)
+(** the remaining defect: without the guard the statement is false *)
 Theorem C16_inv_refuted :
-  exists s o, reachable s /\ wf_b (observe s) = true /\ wf_b (observe (fst (step s o))) = false.
+  exists s o, reachable s /\ wf_b (observe s) = true /\ guard_wf s o = false /\
+              wf_b (observe (fst (step s o))) = false.
 Proof. exact GraphAPI_refuted.C16_inv_refuted. Qed.
 Print Assumptions C16_inv_refuted.
 
-Theorem C16_inv_refuted_F11_add_edge :
-  breaks_wf [NewGraph; AddNode 0 (NVal ax)] (AddEdge 0 fB [NVal bx] (IdStr 0)).
-Proof. exact inv_refuted_F11_add_edge. Qed.
-Print Assumptions C16_inv_refuted_F11_add_edge.
-
-Theorem C16_inv_refuted_F11_set_ext :
-  breaks_wf [NewGraph; AddNode 0 (NVal ax)] (SetExt 0 [NVal bx]).
-Proof. exact inv_refuted_F11_set_ext. Qed.
-Print Assumptions C16_inv_refuted_F11_set_ext.
-
-Theorem C16_inv_refuted_remove_node :
-  breaks_wf [NewGraph; AddEdge 0 fA [NVal ax] (IdStr 0)] (RemoveNode 0 bx).
-Proof. exact inv_refuted_remove_node. Qed.
-Print Assumptions C16_inv_refuted_remove_node.
-
-Theorem C16_inv_refuted_F13_copy :
-  breaks_wf [NewGraph; AddEdge 0 fA [NVal ax] (IdStr 0)] (Copy 0).
-Proof. exact inv_refuted_F13_copy. Qed.
-Print Assumptions C16_inv_refuted_F13_copy.
-
-Theorem C16_inv_refuted_rhs_alias :
+Theorem C16_inv_refuted_rhs_alias_ext :
   breaks_wf [NewGraph; AddNode 0 (NVal ax); SetExt 0 [NVal ax]; NewHRG (SName 2); AddRule 1 XA 0]
             (SetExt 0 []).
 Proof. exact inv_refuted_alias_set_ext. Qed.
-Print Assumptions C16_inv_refuted_rhs_alias.
+Print Assumptions C16_inv_refuted_rhs_alias_ext.
 
-(** * (A) C16_failure_atomic *)
-(** the only state hypothesis, [tabs_keyed], holds in every reachable state, guards or not *)
-Theorem C16_tabs_keyed_reachable : forall ops, tabs_keyed (run init ops).
-Proof. exact reachable_tabs_keyed. Qed.
-Print Assumptions C16_tabs_keyed_reachable.
+Theorem C16_inv_refuted_rhs_alias_add_edge :
+  breaks_wf [NewGraph; NewHRG (SName 2); NewRule 1 1 0] (AddEdge 0 fA [NVal ax] (IdStr 0)).
+Proof. exact inv_refuted_alias_add_edge. Qed.
+Print Assumptions C16_inv_refuted_rhs_alias_add_edge.
 
-(** a call that raises leaves every object as it was, if it satisfies [atomic_ok]
-    (F12: a label clash in add_edge / new_edge only when no attachment node is missing;
-    add_rule / new_rule: the raising call has not changed the tables; add_factor: label
-    already registered; add_domain: a mapped name is in the node-label table) *)
+(** * (A) C16_failure_atomic: unconditional *)
+(** a call that raises leaves every object as it was -- in every state, for every call *)
 Theorem C16_failure_atomic :
-  forall s o, tabs_keyed s -> atomic_ok s o = true -> is_err (snd (step s o)) = true ->
-              observe (fst (step s o)) = observe s.
+  forall s o, is_err (snd (step s o)) = true -> observe (fst (step s o)) = observe s.
 Proof. exact step_atomic_observe. Qed.
 Print Assumptions C16_failure_atomic.
 
-Theorem C16_failure_atomic_refuted :
-  exists s o, reachable s /\ is_err (snd (step s o)) = true /\ observe (fst (step s o)) <> observe s.
-Proof. exact GraphAPI_refuted.C16_failure_atomic_refuted. Qed.
-Print Assumptions C16_failure_atomic_refuted.
-
-Theorem C16_failure_atomic_refuted_add_rule :
-  not_atomic [NewGraph; AddEdge 0 fA [NVal ax] (IdStr 0); NewHRG (SName 2); AddEdgeLabel 1 fB] (NewRule 1 1 0).
-Proof. exact atomic_refuted_add_rule. Qed.
-Print Assumptions C16_failure_atomic_refuted_add_rule.
-
-Theorem C16_failure_atomic_refuted_add_factor :
-  not_atomic [NewFactorGraph; AddDomain 0 A [0; 1]] (AddFactor 0 fA (Fac [[0; 1]; [0; 1]] 0)).
-Proof. exact atomic_refuted_add_factor. Qed.
-Print Assumptions C16_failure_atomic_refuted_add_factor.
+Theorem C16_failure_atomic_objs :
+  forall s o, is_err (snd (step s o)) = true -> objs (fst (step s o)) = objs s.
+Proof. exact step_atomic. Qed.
+Print Assumptions C16_failure_atomic_objs.
 
 (** * (A) C16_copy *)
 (** frame: a call changes at most the object behind its target handle (new objects are
@@ -127,8 +93,12 @@ Theorem C16_frame_oracle :
 Proof. exact frame_ok_model. Qed.
 Print Assumptions C16_frame_oracle.
 
-(** a successful copy is [==] to its original (no guard needed for [==]: it does not look at
-    the label tables F13 loses) *)
+(** plain Graph / HRG objects never carry domains or factors: holds in every reachable state *)
+Theorem C16_plain_reachable : forall ops, plain_ok (run init ops).
+Proof. exact reachable_plain_ok. Qed.
+Print Assumptions C16_plain_reachable.
+
+(** a successful copy is [==] to its original *)
 Theorem C16_copy_eq :
   forall s h a, inv s -> nth_error (objs s) h = Some a -> snd (step s (Copy h)) = ROk ->
     let s' := fst (step s (Copy h)) in
@@ -136,6 +106,24 @@ Theorem C16_copy_eq :
               obj_eqb (objs s') a c = true.
 Proof. exact copy_eq. Qed.
 Print Assumptions C16_copy_eq.
+
+(** a successful copy SHOWS what its original shows -- every accessor, label tables, domains
+    and factor weights included; for a grammar: same rules under the same left-hand sides in
+    the same order, each rhs a fresh graph that shows what the original rhs shows
+    ([copy_match true], the oracle the harness applies to the implementation) *)
+Theorem C16_copy_observe :
+  forall s h a, inv s -> plain_ok s -> nth_error (objs s) h = Some a -> snd (step s (Copy h)) = ROk ->
+    let s' := fst (step s (Copy h)) in
+    exists c, nth_error (objs s') (length (objs s)) = Some c /\
+              copy_match true (observe s') (obs_obj a) (obs_obj c) = true.
+Proof. exact copy_observe. Qed.
+Print Assumptions C16_copy_observe.
+
+(** for a Graph / FactorGraph the copy shows literally the same thing *)
+Theorem C16_copy_observe_graph :
+  forall g c, graph_ok g -> plain_obj (OG g) -> g_copy g = inl c -> obs_obj (OG c) = obs_obj (OG g).
+Proof. exact g_copy_observe. Qed.
+Print Assumptions C16_copy_observe_graph.
 
 (** the copy of a grammar refers only to new graph objects ... *)
 Theorem C16_copy_fresh :
@@ -159,26 +147,6 @@ Theorem C16_copy_independent :
                nth_error (objs (run s' ops)) k = nth_error (objs s') k).
 Proof. exact copy_independent. Qed.
 Print Assumptions C16_copy_independent.
-
-(** a copied Graph / FactorGraph SHOWS exactly what its original shows (every accessor,
-    including domains and factor weights) when the label tables survive the copy -- the guard
-    that excludes F13 *)
-Theorem C16_copy_observe_graph :
-  forall g c, graph_ok g -> g_copy g = inl c -> copy_tables_kept g c -> obs_obj (OG c) = obs_obj (OG g).
-Proof. exact g_copy_observe. Qed.
-Print Assumptions C16_copy_observe_graph.
-
-(** F13: the copy does not show the label tables of its original *)
-Theorem C16_copy_refuted :
-  exists s h, reachable s /\
-    let s' := fst (step s (Copy h)) in
-    snd (step s (Copy h)) = ROk /\
-    match nth_error (observe s') h, nth_error (observe s') (length (objs s)) with
-    | Some x, Some y => copy_match true (observe s') x y = false /\ wf_b (observe s) = true
-    | _, _ => False
-    end.
-Proof. exact GraphAPI_refuted.C16_copy_refuted. Qed.
-Print Assumptions C16_copy_refuted.
 
 (** * (A) C16_eq_equiv *)
 Theorem C16_eq_refl : forall os a, inv_os os -> In a os -> obj_eqb os a a = true.
@@ -221,7 +189,7 @@ Proof. exact hrg_eqb_separates. Qed.
 Print Assumptions C16_eq_hrg_separates.
 
 (** the hypotheses above are satisfiable by a non-trivial history (a factor graph, an FGG with
-    a rule, domains, a factor, a copy, raising calls) *)
+    a rule, domains, a factor, a copy, raising calls incl. an id re-used by another node) *)
 Theorem C16_example_guarded_history : all_guarded init demo = true.
 Proof. exact demo_guarded. Qed.
 Print Assumptions C16_example_guarded_history.
